@@ -4,6 +4,7 @@
   written on `BitVec w` operator for operator as in keys.go.
 -/
 import ArtVerif.Model.Bytes
+import ArtVerif.Model.Ieee
 namespace ArtVerif
 
 /-- Big-endian bytes of `x`, `n` bytes. -/
@@ -14,8 +15,6 @@ def toBE : Nat → Nat → Bytes
 /-- Big-endian value of a byte string. -/
 def ofBE (bs : Bytes) : Nat := bs.foldl (fun acc b => acc * 256 + b.toNat) 0
 
-def signBit (w : Nat) : BitVec w := BitVec.twoPow w (w-1)
-
 /-! ### unsigned / signed -/
 
 def encU {w : Nat} (x : BitVec w) : Bytes := toBE (w/8) x.toNat
@@ -25,19 +24,6 @@ def encI {w : Nat} (x : BitVec w) : Bytes := toBE (w/8) (x ^^^ signBit w).toNat
 def decI (w : Nat) (bs : Bytes) : BitVec w := BitVec.ofNat w (ofBE bs) ^^^ signBit w
 
 /-! ### floats (IEEE bit patterns; `e` exponent bits, `m` mantissa bits, `w = 1+e+m`) -/
-
-structure FloatFmt (w : Nat) where
-  expMask : BitVec w
-  mantMask : BitVec w
-  canonNaN : BitVec w   -- what `K(math.NaN())` is in this format
-
-def fmt32 : FloatFmt 32 := ⟨0x7F800000#32, 0x007FFFFF#32, 0x7FC00000#32⟩
-def fmt64 : FloatFmt 64 := ⟨0x7FF0000000000000#64, 0x000FFFFFFFFFFFFF#64, 0x7FF8000000000001#64⟩
-
-def FloatFmt.isNaN {w} (f : FloatFmt w) (x : BitVec w) : Bool :=
-  (x &&& f.expMask) == f.expMask && (x &&& f.mantMask) != 0#w
-def FloatFmt.posInf {w} (f : FloatFmt w) : BitVec w := f.expMask
-def FloatFmt.negInf {w} (f : FloatFmt w) : BitVec w := f.expMask ||| signBit w
 
 /-- The word `FloatBinaryKey.Transform` stores (before `PutUintN`). -/
 def encFWord {w} (f : FloatFmt w) (x : BitVec w) : BitVec w :=
